@@ -276,7 +276,7 @@ pub const C03: Check = Check {
     assumptions: &["the history model (module copies, store) follows the statement of C03-C05; it was self-validated on the unchanged tree"],
     shards: |_| 16,
     watchdog: |t| Duration::from_secs(t.pick(600, 3600)),
-    budget: |t| Duration::from_secs(t.pick(40, 600)),
+    budget: |t| Duration::from_secs(t.pick(40, 300)),
     run: |c, r| run_hist(c, r, "C03", Emphasis::Incomplete),
     crash_is_violation: false,
     finish: None,
@@ -293,7 +293,7 @@ pub const C04: Check = Check {
     assumptions: &["as C03"],
     shards: |_| 16,
     watchdog: |t| Duration::from_secs(t.pick(600, 3600)),
-    budget: |t| Duration::from_secs(t.pick(40, 600)),
+    budget: |t| Duration::from_secs(t.pick(40, 300)),
     run: |c, r| run_hist(c, r, "C04", Emphasis::Mixed),
     crash_is_violation: false,
     finish: None,
@@ -309,7 +309,7 @@ pub const C05: Check = Check {
     assumptions: &["the 'stored copy internally inconsistent' exception is not generated"],
     shards: |_| 16,
     watchdog: |t| Duration::from_secs(t.pick(600, 3600)),
-    budget: |t| Duration::from_secs(t.pick(40, 600)),
+    budget: |t| Duration::from_secs(t.pick(40, 300)),
     run: |c, r| run_hist(c, r, "C05", Emphasis::Ordering),
     crash_is_violation: false,
     finish: None,
